@@ -1,11 +1,13 @@
 (* Properties_C09.v — pointers alias their live target; dead or unset pointers are diagnosed.
-   PARTIAL: a pointer is the pair (target cell id, owner context id); the liveness test walks the caller
-   chain comparing identifiers.  Proved: identifiers of contexts are never reused (so a returned
-   activation can never look alive again), a context is live for itself, and the unset owner 0 is on no
-   chain.  That dereferencing reads and writes exactly the target is the definition of resolve for the
-   '^' resolver (it returns the target's own cell id) and is compared with the implementation, normal and
-   sanitizer build, on every activation pattern the generators produce. *)
-From PE2 Require Import Eval Lemmas_HeapIds Lemmas_Out Lemmas_DeepCopy Lemmas_HeapInv.
+   A pointer is the pair (target cell id, owner context id); the liveness test walks the caller chain comparing identifiers.
+   Proved: identifiers of contexts are never reused (so a returned activation can never look alive again), a context is live for
+   itself, the unset owner 0 is on no chain, targets persist with their type; and, statement by statement for every state:
+   `p <- ^v` records v's own cell and nothing else changes, afterwards `p^` resolves to exactly that cell, an unset pointer and a
+   pointer to a returned activation's variable are runtime errors with the whole state untouched, and the assignment is
+   type-checked against the pointer type's target type.  PARTIAL: that the C++ liveness walk and the freed storage behave as the
+   identifiers of the model do is compared with the implementation, normal and sanitizer build, on every activation pattern the
+   generators produce. *)
+From PE2 Require Import Eval Lemmas_HeapIds Lemmas_Out Lemmas_DeepCopy Lemmas_HeapInv Run Lemmas_PtrStates.
 Local Open Scope Z_scope.
 
 Theorem C09_ctx_ids_fresh : forall parent name isfun isrec rett s id s',
@@ -43,3 +45,56 @@ Theorem C09_targets_persist_with_their_type : forall ped repl lim fuel bl c s, h
   (forall id x, nm_get id (s_ctxs s) = Some x -> exists x', nm_get id (s_ctxs s') = Some x').
 Proof. intros ped repl lim fuel bl c s H. exact (run_block_keeps_heap ped repl lim fuel bl c s H). Qed.
 Print Assumptions C09_targets_persist_with_their_type.
+
+(* ---- what a pointer denotes, statement by statement; for every state and context, the inner resolutions (of p, of v) being any
+   that do not touch the state ---- *)
+(* p <- ^v records v's own cell and the activation that owns it in p; nothing else changes *)
+Theorem C09_pointer_assignment_records_the_variable : forall ped repl lim fuel t pr vr c s pid vid pc vc tn old oldo target_ty owner,
+  ev_resolve (evs_at ped repl lim fuel) pr c s = (Ok (HVar pid), s) -> ev_resolve (evs_at ped repl lim fuel) vr c s = (Ok (HVar vid), s) ->
+  nm_get pid (s_cells s) = Some pc -> nm_get vid (s_cells s) = Some vc -> dk (c_type pc) = KPtr -> c_val pc = PPtr tn old oldo ->
+  lookup_ptr_def c tn true s = (Ok (Some target_ty), s) -> dt_eq target_ty (c_type vc) = true ->
+  nonrec_ancestor (c_owner vc) s = (Ok owner, s) ->
+  ev_eval (evs_at ped repl lim (S fuel)) (NPtrAssign t pr vr) c s =
+    (Ok res_none, set_cells (nm_put pid (mkCell (c_name pc) (c_type pc) (c_const pc) (c_owner pc) (PPtr tn (Some vid) owner)) (s_cells s)) s).
+Proof. exact pointer_assignment_records_the_variable. Qed.
+Print Assumptions C09_pointer_assignment_records_the_variable.
+
+(* ... and afterwards p^ denotes v itself (reads and writes through p^ are reads and writes of v's cell) *)
+Theorem C09_after_the_assignment_the_pointer_denotes_the_variable : forall ped repl lim fuel t' pr c s pid vid pc tn owner,
+  let s' := set_cells (nm_put pid (mkCell (c_name pc) (c_type pc) (c_const pc) (c_owner pc) (PPtr tn (Some vid) owner)) (s_cells s)) s in
+  dk (c_type pc) = KPtr -> ev_resolve (evs_at ped repl lim fuel) pr c s' = (Ok (HVar pid), s') -> on_chain c owner s' = (Ok true, s') ->
+  ev_resolve (evs_at ped repl lim (S fuel)) (RDeref t' pr) c s' = (Ok (HVar vid), s').
+Proof. exact after_the_assignment_the_pointer_denotes_the_variable. Qed.
+Print Assumptions C09_after_the_assignment_the_pointer_denotes_the_variable.
+
+Theorem C09_deref_resolves_to_the_target : forall ped repl lim fuel t r' c s id cl tn tid owner,
+  ev_resolve (evs_at ped repl lim fuel) r' c s = (Ok (HVar id), s) -> nm_get id (s_cells s) = Some cl ->
+  dk (c_type cl) = KPtr -> c_val cl = PPtr tn (Some tid) owner -> on_chain c owner s = (Ok true, s) ->
+  ev_resolve (evs_at ped repl lim (S fuel)) (RDeref t r') c s = (Ok (HVar tid), s).
+Proof. exact deref_resolves_to_the_target. Qed.
+Print Assumptions C09_deref_resolves_to_the_target.
+
+(* an unset pointer, and a pointer whose target's activation is no longer on the chain of the current one, are runtime errors; the
+   whole state is as it was: no other storage is read into a result or written *)
+Theorem C09_deref_of_an_unset_pointer_is_an_error : forall ped repl lim fuel t r' c s id cl tn owner,
+  ev_resolve (evs_at ped repl lim fuel) r' c s = (Ok (HVar id), s) -> nm_get id (s_cells s) = Some cl ->
+  dk (c_type cl) = KPtr -> c_val cl = PPtr tn None owner ->
+  exists f, ev_resolve (evs_at ped repl lim (S fuel)) (RDeref t r') c s = (Fail f, s).
+Proof. exact deref_of_an_unset_pointer_is_an_error. Qed.
+Print Assumptions C09_deref_of_an_unset_pointer_is_an_error.
+
+Theorem C09_deref_of_a_dead_target_is_an_error : forall ped repl lim fuel t r' c s id cl tn tgt owner,
+  ev_resolve (evs_at ped repl lim fuel) r' c s = (Ok (HVar id), s) -> nm_get id (s_cells s) = Some cl ->
+  dk (c_type cl) = KPtr -> c_val cl = PPtr tn tgt owner -> on_chain c owner s = (Ok false, s) ->
+  exists f, ev_resolve (evs_at ped repl lim (S fuel)) (RDeref t r') c s = (Fail f, s).
+Proof. exact deref_of_a_dead_target_is_an_error. Qed.
+Print Assumptions C09_deref_of_a_dead_target_is_an_error.
+
+(* taking a pointer is type-checked against the pointer type's declared target type *)
+Theorem C09_pointer_assignment_is_type_checked : forall ped repl lim fuel t pr vr c s pid vid pc vc tn old oldo target_ty,
+  ev_resolve (evs_at ped repl lim fuel) pr c s = (Ok (HVar pid), s) -> ev_resolve (evs_at ped repl lim fuel) vr c s = (Ok (HVar vid), s) ->
+  nm_get pid (s_cells s) = Some pc -> nm_get vid (s_cells s) = Some vc -> dk (c_type pc) = KPtr -> c_val pc = PPtr tn old oldo ->
+  lookup_ptr_def c tn true s = (Ok (Some target_ty), s) -> dt_eq target_ty (c_type vc) = false ->
+  exists f, ev_eval (evs_at ped repl lim (S fuel)) (NPtrAssign t pr vr) c s = (Fail f, s).
+Proof. exact pointer_assignment_is_type_checked. Qed.
+Print Assumptions C09_pointer_assignment_is_type_checked.
